@@ -1,7 +1,1758 @@
-//! C03 — not implemented yet (stub).
-use crate::engine::Args;
+//! C03 — client and backend always agree on request boundaries (no smuggling) (DESIGN §4 C03).
+//!
+//! Built so far: the HTTP/1.1 frontend -> HTTP/1.1 backend path, black box through a live worker.
+//! Sub-checks: `clean` (in-process guard: the reference readers accept 100 % of a grammar-generated
+//! clean corpus and of /repo/lib/assets/http-requests.txt), `cleanwire` (wire lab, clean pipelined
+//! sequences: sozu's output must be accepted by the readers too), `smuggle` (wire lab, the mutator
+//! catalogue). The reference readers are in `crate::model::http`.
+//!
+//! Known findings (reproducers /verif/regressions/C03/smuggle-known-*.json, `strict: true`; generated cases
+//! leave the shapes out by construction and count them in `excluded_known`):
+//! * `C03/no-length-request-swallows-following-bytes` — a request without Content-Length / Transfer-Encoding
+//!   is parsed as BodySize::Empty and takes every following byte as body: pipelined requests reach the first
+//!   request's backend unrouted and unstamped (generated: such a request gets `Content-Length: 0` unless last);
+//! * `C03/unrecognised-transfer-encoding-forwarded` — Transfer-Encoding is matched by `ends_with("chunked")`
+//!   per field, any other value is ignored yet forwarded verbatim (TE_KNOWN forms);
+//! * `C03/backend-stream-not-rfc9112:content-length-value` (`+N`), `:te-in-http10`, `:method`,
+//!   `:request-target`, `:field-name` (empty tokens, `"` and `/` in tokens).
+//! Exploration aids: VP_C03_SURVEY=1 (tally failure signatures instead of stopping), VP_C03_NO_EXCLUSIONS=1.
 
-pub fn run(_args: &Args) -> i32 {
-    println!("INCONCLUSIVE: C03 has no check yet");
-    2
+use std::{
+    cell::RefCell,
+    collections::BTreeMap,
+    io::{Read, Write},
+    net::TcpStream,
+    sync::{
+        Arc, Mutex,
+        atomic::{AtomicBool, Ordering},
+    },
+    time::{Duration, Instant},
+};
+
+use proptest::prelude::*;
+use serde::{Deserialize, Serialize};
+
+use crate::{
+    engine::{self, Args, CaseReport, CheckResult, Evidence, Failure, Stats, pick_idx},
+    lab::{
+        self, LabConfig,
+        h1::Acceptor,
+        httplab::HttpLab,
+        script::{self, WStep, WriteScript},
+    },
+    model::http::{self, Framing, Opts, Reading, Req, Tail},
+};
+
+// ------------------------------------------------------------------ case
+
+pub const METHODS: &[&str] = &["GET", "POST", "PUT", "DELETE", "HEAD", "OPTIONS", "PATCH", "QUERY"];
+const EXTRA_NAMES: &[&str] = &["Accept", "User-Agent", "X-Forwarded-For", "Forwarded", "Cookie", "X-Request-Id", "Connection", "Accept-Encoding", "X-Pad", "Content-Type", "TE", "X-Forwarded-Proto"];
+
+#[derive(Clone, Debug, Serialize, Deserialize, PartialEq)]
+pub enum Body {
+    None,
+    /// Content-Length framing, `len` bytes of letters (payload 0)
+    Cl(usize),
+    /// chunked framing: `len` bytes cut into chunks of the given sizes (cycled)
+    Chunked(usize, Vec<usize>),
+}
+
+#[derive(Clone, Debug, Serialize, Deserialize)]
+pub struct ReqSpec {
+    pub method: u8,
+    pub path: String,
+    /// absolute-form target `http://<host>/path`
+    pub absolute: bool,
+    /// cluster whose host name the request carries
+    pub host: u8,
+    pub extra: Vec<(u8, String)>,
+    pub body: Body,
+    /// body content: 0 letters; 1 a complete embedded request; 2 `0 CRLF CRLF` followed by an embedded request
+    pub payload: u8,
+}
+
+#[derive(Clone, Copy, Debug, Serialize, Deserialize, PartialEq)]
+pub enum Sel {
+    Framing,
+    Host,
+    Marker,
+    Extra(u8),
+}
+
+#[derive(Clone, Debug, Serialize, Deserialize)]
+pub enum Mut {
+    /// add a Transfer-Encoding field (TE_FORMS[form]) to a request; `before`: ahead of the framing field
+    AddTe { req: u32, form: u8, before: bool },
+    /// add a(nother) Content-Length: delta 0 = same value, otherwise the value shifted by delta
+    AddCl { req: u32, delta: i8, before: bool },
+    /// rewrite the Content-Length value (CL_FORMS)
+    ClForm { req: u32, form: u8 },
+    /// rewrite the Transfer-Encoding value (TE_FORMS)
+    TeForm { req: u32, form: u8 },
+    /// Transfer-Encoding over two fields (TE_SPLITS)
+    TeSplit { req: u32, form: u8 },
+    WsColon { req: u32, sel: Sel, tab: bool },
+    /// continuation line after the selected field: 0 part of its value, 1 a Content-Length, 2 a Transfer-Encoding
+    ObsFold { req: u32, sel: Sel, cont: u8 },
+    /// bare LF line ends: 0 every head line, 1 the selected field's line, 2 the blank line, 3 chunk lines
+    BareLf { req: u32, which: u8, sel: Sel },
+    /// bare CR inside the selected field's value followed by: 0 nothing, 1 a Content-Length, 2 a Transfer-Encoding
+    BareCr { req: u32, sel: Sel, payload: u8 },
+    BadByte { req: u32, sel: Sel, in_name: bool, byte: u8, pos: u32 },
+    /// CHUNK_FORMS
+    Chunk { req: u32, form: u8 },
+    /// VERSION_FORMS
+    Version { req: u32, form: u8 },
+    /// HOST_FORMS
+    Host { req: u32, form: u8 },
+    /// REQLINE_FORMS
+    ReqLine { req: u32, form: u8 },
+    // byte level, on the serialised stream
+    Flip { pos: u32, mask: u8 },
+    Delete { pos: u32, len: u8 },
+    Dup { pos: u32, len: u8 },
+    Insert { pos: u32, token: u8 },
+    Truncate { pos: u32 },
+}
+
+#[derive(Clone, Debug, Serialize, Deserialize)]
+pub struct Case {
+    pub nonce: u32,
+    pub reqs: Vec<ReqSpec>,
+    pub muts: Vec<Mut>,
+    pub write: WriteScript,
+    /// the last request carries `Connection: close`
+    pub close_last: bool,
+    /// reproducer mode: mutator forms that hit a known finding are applied (generated cases leave them out)
+    #[serde(default)]
+    pub strict: bool,
+}
+
+pub const TE_FORMS: &[&[u8]] = &[
+    b"xchunked",          // 0
+    b"chunked, identity", // 1
+    b"identity, chunked", // 2
+    b"Chunked",           // 3
+    b"\tchunked",         // 4
+    b"chunked ;q=1",      // 5
+    b"chunked ",          // 6
+    b"chunked\t",         // 7
+    b"CHUNKED",           // 8
+    b"identity",          // 9
+    b"chunked, chunked",  // 10
+    b"gzip, chunked",     // 11
+    b", chunked",         // 12
+    b"chunked,",          // 13
+    b"\"chunked\"",       // 14
+    b"chunked\x0b",       // 15
+    b"x-chunked",         // 16
+    b"gzip,chunked",      // 17
+    b"chunked;q=1",       // 18
+    b"chunked",           // 19
+];
+pub const TE_SPLITS: &[(&[u8], &[u8])] = &[(b"chunked", b"identity"), (b"identity", b"chunked"), (b"gzip", b"chunked"), (b"chunked", b"chunked"), (b"chunked", b""), (b"", b"chunked")];
+
+fn cl_form(form: u8, n: usize) -> Vec<u8> {
+    match form {
+        0 => format!("+{n}"),
+        1 => format!("{n},{n}"),
+        2 => format!("{n}, {n}"),
+        3 => format!("0x{n:x}"),
+        4 => format!("{n} {n}"),
+        5 => format!("0{n}"),
+        6 => format!("{n} "),
+        7 => format!("-{n}"),
+        8 => format!("{n}.0"),
+        9 => String::new(),
+        10 => "18446744073709551616".to_string(),
+        11 => format!("\t{n}"),
+        12 => format!("{n}\t"),
+        13 => format!("{n};q=1"),
+        14 => format!("{n}\x0b"),
+        15 => format!("{n}, {}", n + 1),
+        16 => format!("00000000000000000000{n}"),
+        17 => format!("{}", 4294967296u64 + n as u64),
+        18 => format!("{n}e0"),
+        _ => format!("{n}"),
+    }
+    .into_bytes()
+}
+pub const CL_FORMS: u8 = 19;
+/// chunk mutations: 0 17-digit size, 1 many leading zeros, 2 0x prefix, 3 negative, 4 trailing space, 5 leading space,
+/// 6 plus sign, 7 upper-case hex, 8 ext `;a=b`, 9 ext with spaces ` ; a = b`, 10 ext quoted with CRLF inside, 11 ext bare `;`,
+/// 12 missing CRLF after data, 13 missing final CRLF, 14 trailer field, 15 trailer Content-Length, 16 trailer Transfer-Encoding,
+/// 17 LF after size, 18 LF after data, 19 size ffffffffffffffff, 20 last chunk `00`, 21 ext on the last chunk, 22 CR only after size
+pub const CHUNK_FORMS: u8 = 23;
+/// 0 HTTP/1.0, 1 HTTP/1.2, 2 HTTP/2.0, 3 http/1.1, 4 HTTP/1.10, 5 missing, 6 HTTP/0.9, 7 HTTP/1.1 + trailing space, 8 HTTP/01.1
+pub const VERSION_FORMS: u8 = 9;
+/// 0 two identical Host, 1 two different Host (own, other), 2 (other, own), 3 empty Host, 4 no Host, 5 Host with port 80,
+/// 6 absolute-form target of the other cluster, 7 Host with userinfo, 8 `own, other` list, 9 `own other`, 10 Host with trailing tab,
+/// 11 upper-case host, 12 Host with trailing dot, 13 absolute-form own + Host other, 14 Host with port 0, 15 Host `own:`
+pub const HOST_FORMS: u8 = 16;
+/// 0 two spaces after the method, 1 tab separators, 2 leading CRLF, 3 leading space, 4 two spaces before the version, 5 space inside
+/// the target, 6 lower-case method, 7 a fourth token, 8 CR LF replaced by CR, 9 two leading CRLF, 10 target without leading slash,
+/// 11 asterisk with GET, 12 empty method, 13 method with a colon, 14 fragment in the target, 15 NUL in target, 16 empty target
+pub const REQLINE_FORMS: u8 = 17;
+const INSERT_TOKENS: &[&[u8]] = &[
+    b"\r\n",
+    b"\n",
+    b"\r",
+    b" ",
+    b"\t",
+    b":",
+    b"\0",
+    b"Content-Length: 0\r\n",
+    b"Transfer-Encoding: chunked\r\n",
+    b"0\r\n\r\n",
+    b"\r\n\r\n",
+    b"chunked",
+    b",",
+    b";",
+    b"\x0b",
+    b"\x0c",
+    b"\x7f",
+    b"\xc3\xa9",
+    b"Content-Length: 7\r\n",
+    b"Host: c1.lab\r\n",
+];
+
+// ------------------------------------------------------------------ building the byte stream
+
+#[derive(Clone, Debug, PartialEq)]
+enum Role {
+    Host,
+    Marker,
+    Cl,
+    Te,
+    Extra(u8),
+    Added,
+}
+
+#[derive(Clone, Debug)]
+struct Hdr {
+    role: Role,
+    name: Vec<u8>,
+    sep: Vec<u8>,
+    value: Vec<u8>,
+    eol: Vec<u8>,
+}
+
+#[derive(Clone, Debug)]
+struct ChunkW {
+    size: Vec<u8>,
+    ext: Vec<u8>,
+    eol: Vec<u8>,
+    data: Vec<u8>,
+    data_eol: Vec<u8>,
+}
+
+#[derive(Clone, Debug)]
+struct Msg {
+    pre: Vec<u8>,
+    method: Vec<u8>,
+    sp1: Vec<u8>,
+    target: Vec<u8>,
+    sp2: Vec<u8>,
+    version: Vec<u8>,
+    line_tail: Vec<u8>,
+    line_eol: Vec<u8>,
+    headers: Vec<Hdr>,
+    blank: Vec<u8>,
+    /// Content-Length body
+    plain: Vec<u8>,
+    /// chunked body
+    chunks: Vec<ChunkW>,
+    last_chunk: Option<ChunkW>,
+    trailers: Vec<Vec<u8>>,
+    final_eol: Vec<u8>,
+    body_len: usize,
+}
+
+pub fn marker(nonce: u32, embedded: bool, k: usize) -> String {
+    format!("{:06x}{}{k}", nonce & 0xff_ffff, if embedded { 'e' } else { 'r' })
+}
+
+fn letters(seed: u64, len: usize) -> Vec<u8> {
+    lab::h1::content(seed, len)
+}
+
+fn payload_bytes(case: &Case, k: usize, r: &ReqSpec, len: usize) -> Vec<u8> {
+    // (known finding: a request without any length swallows what follows; generated cases give it one)
+    let cl0 = if !case.strict && KNOWN.with(|k| k.get()) { "Content-Length: 0\r\n" } else { "" };
+    let emb = format!("GET /smug{k} HTTP/1.1\r\nHost: c{}.lab\r\nX-M: {}\r\n{cl0}\r\n", r.host % 2, marker(case.nonce, true, k)).into_bytes();
+    match r.payload {
+        1 => emb,
+        2 => {
+            let mut v = b"0\r\n\r\n".to_vec();
+            v.extend(emb);
+            v
+        }
+        _ => letters(case.nonce as u64 ^ (k as u64) << 32, len),
+    }
+}
+
+fn hdr(role: Role, name: &str, value: &[u8]) -> Hdr {
+    Hdr { role, name: name.as_bytes().to_vec(), sep: b": ".to_vec(), value: value.to_vec(), eol: b"\r\n".to_vec() }
+}
+
+fn build_msg(case: &Case, k: usize, r: &ReqSpec, last: bool) -> Msg {
+    let host = format!("c{}.lab", r.host % 2);
+    let target = if r.absolute { format!("http://{host}{}", r.path) } else { r.path.clone() };
+    let mut headers = vec![hdr(Role::Host, "Host", host.as_bytes()), hdr(Role::Marker, "X-M", marker(case.nonce, false, k).as_bytes())];
+    for (i, (n, v)) in r.extra.iter().enumerate() {
+        let name = EXTRA_NAMES[*n as usize % EXTRA_NAMES.len()];
+        if name == "Connection" {
+            headers.push(hdr(Role::Extra(i as u8), name, b"keep-alive"));
+        } else if name == "TE" {
+            headers.push(hdr(Role::Extra(i as u8), name, b"trailers"));
+        } else if name == "Cookie" {
+            let v: String = v.chars().filter(|c| c.is_ascii_alphanumeric()).collect();
+            headers.push(hdr(Role::Extra(i as u8), name, format!("a={v}; b=2").as_bytes()));
+        } else if name == "X-Forwarded-Proto" {
+            headers.push(hdr(Role::Extra(i as u8), name, b"http"));
+        } else {
+            headers.push(hdr(Role::Extra(i as u8), name, v.as_bytes()));
+        }
+    }
+    if last && case.close_last {
+        headers.retain(|h| !h.name.eq_ignore_ascii_case(b"connection"));
+        headers.push(hdr(Role::Added, "Connection", b"close"));
+    }
+    let mut m = Msg {
+        pre: vec![],
+        method: METHODS[r.method as usize % METHODS.len()].as_bytes().to_vec(),
+        sp1: b" ".to_vec(),
+        target: target.into_bytes(),
+        sp2: b" ".to_vec(),
+        version: b"HTTP/1.1".to_vec(),
+        line_tail: vec![],
+        line_eol: b"\r\n".to_vec(),
+        headers,
+        blank: b"\r\n".to_vec(),
+        plain: vec![],
+        chunks: vec![],
+        last_chunk: None,
+        trailers: vec![],
+        final_eol: vec![],
+        body_len: 0,
+    };
+    match &r.body {
+        Body::None => {}
+        Body::Cl(len) => {
+            let p = payload_bytes(case, k, r, *len);
+            m.headers.push(hdr(Role::Cl, "Content-Length", p.len().to_string().as_bytes()));
+            m.body_len = p.len();
+            m.plain = p;
+        }
+        Body::Chunked(len, sizes) => {
+            let p = payload_bytes(case, k, r, *len);
+            m.headers.push(hdr(Role::Te, "Transfer-Encoding", b"chunked"));
+            m.body_len = p.len();
+            let sizes: Vec<usize> = sizes.iter().copied().filter(|s| *s > 0).collect();
+            let (mut pos, mut i) = (0, 0);
+            while pos < p.len() {
+                let n = if sizes.is_empty() { p.len() - pos } else { sizes[i % sizes.len()] }.min(p.len() - pos);
+                i += 1;
+                m.chunks.push(ChunkW { size: format!("{n:x}").into_bytes(), ext: vec![], eol: b"\r\n".to_vec(), data: p[pos..pos + n].to_vec(), data_eol: b"\r\n".to_vec() });
+                pos += n;
+            }
+            m.last_chunk = Some(ChunkW { size: b"0".to_vec(), ext: vec![], eol: b"\r\n".to_vec(), data: vec![], data_eol: vec![] });
+            m.final_eol = b"\r\n".to_vec();
+        }
+    }
+    m
+}
+
+fn serialise(m: &Msg) -> Vec<u8> {
+    let mut v = m.pre.clone();
+    for p in [&m.method, &m.sp1, &m.target, &m.sp2, &m.version, &m.line_tail, &m.line_eol] {
+        v.extend_from_slice(p);
+    }
+    for h in &m.headers {
+        v.extend_from_slice(&h.name);
+        v.extend_from_slice(&h.sep);
+        v.extend_from_slice(&h.value);
+        v.extend_from_slice(&h.eol);
+    }
+    v.extend_from_slice(&m.blank);
+    v.extend_from_slice(&m.plain);
+    for c in m.chunks.iter().chain(m.last_chunk.iter()) {
+        v.extend_from_slice(&c.size);
+        v.extend_from_slice(&c.ext);
+        v.extend_from_slice(&c.eol);
+        v.extend_from_slice(&c.data);
+        v.extend_from_slice(&c.data_eol);
+    }
+    for t in &m.trailers {
+        v.extend_from_slice(t);
+    }
+    v.extend_from_slice(&m.final_eol);
+    v
+}
+
+fn sel_index(m: &Msg, sel: Sel) -> usize {
+    let want = |h: &Hdr| match sel {
+        Sel::Framing => h.role == Role::Cl || h.role == Role::Te,
+        Sel::Host => h.role == Role::Host,
+        Sel::Marker => h.role == Role::Marker,
+        Sel::Extra(i) => h.role == Role::Extra(i),
+    };
+    m.headers.iter().position(want).unwrap_or_else(|| match sel {
+        Sel::Extra(i) => (i as usize) % m.headers.len().max(1),
+        _ => 0,
+    })
+}
+
+fn framing_index(m: &Msg) -> Option<usize> {
+    m.headers.iter().position(|h| h.role == Role::Cl || h.role == Role::Te)
+}
+
+/// make sure the message has a Content-Length field; returns its index
+fn ensure_cl(m: &mut Msg) -> usize {
+    if let Some(i) = m.headers.iter().position(|h| h.role == Role::Cl) {
+        return i;
+    }
+    let n = m.body_len;
+    m.headers.push(hdr(Role::Cl, "Content-Length", n.to_string().as_bytes()));
+    m.headers.len() - 1
+}
+
+fn ensure_te(m: &mut Msg) -> usize {
+    if let Some(i) = m.headers.iter().position(|h| h.role == Role::Te) {
+        return i;
+    }
+    m.headers.push(hdr(Role::Te, "Transfer-Encoding", b"chunked"));
+    m.headers.len() - 1
+}
+
+thread_local! {
+    /// exploration / sensitivity aid: VP_C03_NO_EXCLUSIONS=1 applies every form
+    static KNOWN: std::cell::Cell<bool> = std::cell::Cell::new(std::env::var("VP_C03_NO_EXCLUSIONS").is_err());
+}
+
+/// Transfer-Encoding forms sozu forwards without reading them the way a backend will (known finding)
+const TE_KNOWN: &[u8] = &[0, 1, 5, 6, 7, 9, 13, 14, 16, 18];
+
+/// The known finding a mutator would run into on the messages as they are now: generated cases leave
+/// these out (counted in `excluded_known`), reproducers (`strict`) apply them.
+fn known_shape(mu: &Mut, msgs: &[Msg]) -> Option<&'static str> {
+    if !KNOWN.with(|k| k.get()) {
+        return None;
+    }
+    let n = msgs.len();
+    let has_te = |m: &Msg| m.headers.iter().any(|h| h.name.eq_ignore_ascii_case(b"transfer-encoding"));
+    let http10 = |m: &Msg| m.version == b"HTTP/1.0";
+    match mu {
+        Mut::AddTe { req, form, .. } | Mut::TeForm { req, form } => {
+            if TE_KNOWN.contains(&(*form % TE_FORMS.len() as u8)) {
+                Some("unrecognised-transfer-encoding-forwarded")
+            } else if http10(&msgs[pick_idx(*req, n)]) {
+                Some("te-in-http10")
+            } else {
+                None
+            }
+        }
+        Mut::TeSplit { req, form } => {
+            if *form as usize % TE_SPLITS.len() == 0 {
+                Some("unrecognised-transfer-encoding-forwarded")
+            } else if http10(&msgs[pick_idx(*req, n)]) {
+                Some("te-in-http10")
+            } else {
+                None
+            }
+        }
+        Mut::Chunk { req, .. } if http10(&msgs[pick_idx(*req, n)]) => Some("te-in-http10"),
+        Mut::Version { req, form } if form % VERSION_FORMS == 0 && has_te(&msgs[pick_idx(*req, n)]) => Some("te-in-http10"),
+        Mut::ClForm { form, .. } if form % CL_FORMS == 0 => Some("content-length-value"),
+        Mut::ReqLine { form, .. } if form % REQLINE_FORMS == 12 => Some("method"),
+        Mut::ReqLine { form, .. } if form % REQLINE_FORMS == 16 => Some("request-target"),
+        Mut::BadByte { req, sel, in_name, byte, .. } => {
+            let m = &msgs[pick_idx(*req, n)];
+            let i = sel_index(m, *sel);
+            if *in_name && (*byte == b'"' || *byte == b'/') {
+                Some("field-name")
+            } else if !*in_name && m.headers[i].name.eq_ignore_ascii_case(b"transfer-encoding") && (0x20..=0x7e).contains(byte) {
+                Some("unrecognised-transfer-encoding-forwarded")
+            } else {
+                None
+            }
+        }
+        _ => None,
+    }
+}
+
+fn mut_label(mu: &Mut) -> &'static str {
+    match mu {
+        Mut::AddTe { .. } => "mut:add_te",
+        Mut::AddCl { .. } => "mut:add_cl",
+        Mut::ClForm { .. } => "mut:cl_form",
+        Mut::TeForm { .. } => "mut:te_form",
+        Mut::TeSplit { .. } => "mut:te_split",
+        Mut::WsColon { .. } => "mut:ws_before_colon",
+        Mut::ObsFold { .. } => "mut:obs_fold",
+        Mut::BareLf { .. } => "mut:bare_lf",
+        Mut::BareCr { .. } => "mut:bare_cr",
+        Mut::BadByte { .. } => "mut:bad_byte",
+        Mut::Chunk { .. } => "mut:chunk",
+        Mut::Version { .. } => "mut:version",
+        Mut::Host { .. } => "mut:host",
+        Mut::ReqLine { .. } => "mut:request_line",
+        Mut::Flip { .. } => "mut:byte_flip",
+        Mut::Delete { .. } => "mut:byte_delete",
+        Mut::Dup { .. } => "mut:byte_dup",
+        Mut::Insert { .. } => "mut:byte_insert",
+        Mut::Truncate { .. } => "mut:truncate",
+    }
+}
+
+fn apply_structured(msgs: &mut [Msg], specs: &[ReqSpec], mu: &Mut) {
+    let n = msgs.len();
+    let pick = |req: u32| pick_idx(req, n);
+    match mu {
+        Mut::AddTe { req, form, before } => {
+            let m = &mut msgs[pick(*req)];
+            let h = hdr(Role::Added, "Transfer-Encoding", TE_FORMS[*form as usize % TE_FORMS.len()]);
+            match (framing_index(m), before) {
+                (Some(i), true) => m.headers.insert(i, h),
+                _ => m.headers.push(h),
+            }
+        }
+        Mut::AddCl { req, delta, before } => {
+            let m = &mut msgs[pick(*req)];
+            let v = (m.body_len as i64 + *delta as i64).max(0);
+            let h = hdr(Role::Added, "Content-Length", v.to_string().as_bytes());
+            match (framing_index(m), before) {
+                (Some(i), true) => m.headers.insert(i, h),
+                _ => m.headers.push(h),
+            }
+        }
+        Mut::ClForm { req, form } => {
+            let m = &mut msgs[pick(*req)];
+            let i = ensure_cl(m);
+            m.headers[i].value = cl_form(*form % CL_FORMS, m.body_len);
+        }
+        Mut::TeForm { req, form } => {
+            let m = &mut msgs[pick(*req)];
+            let i = ensure_te(m);
+            m.headers[i].value = TE_FORMS[*form as usize % TE_FORMS.len()].to_vec();
+        }
+        Mut::TeSplit { req, form } => {
+            let m = &mut msgs[pick(*req)];
+            let i = ensure_te(m);
+            let (a, b) = TE_SPLITS[*form as usize % TE_SPLITS.len()];
+            m.headers[i].value = a.to_vec();
+            let h = hdr(Role::Added, "Transfer-Encoding", b);
+            m.headers.insert(i + 1, h);
+        }
+        Mut::WsColon { req, sel, tab } => {
+            let m = &mut msgs[pick(*req)];
+            let i = sel_index(m, *sel);
+            m.headers[i].sep = if *tab { b"\t: ".to_vec() } else { b" : ".to_vec() };
+        }
+        Mut::ObsFold { req, sel, cont } => {
+            let m = &mut msgs[pick(*req)];
+            let i = sel_index(m, *sel);
+            let line: Vec<u8> = match cont % 3 {
+                0 => {
+                    // split the value over two lines
+                    let v = m.headers[i].value.clone();
+                    let cut = v.len() / 2;
+                    m.headers[i].value = v[..cut].to_vec();
+                    let mut l = b" ".to_vec();
+                    l.extend_from_slice(&v[cut..]);
+                    l
+                }
+                1 => format!("\tContent-Length: {}", m.body_len + 1).into_bytes(),
+                _ => b" Transfer-Encoding: chunked".to_vec(),
+            };
+            m.headers[i].eol.extend_from_slice(&line);
+            m.headers[i].eol.extend_from_slice(b"\r\n");
+        }
+        Mut::BareLf { req, which, sel } => {
+            let m = &mut msgs[pick(*req)];
+            match which % 4 {
+                0 => {
+                    m.line_eol = b"\n".to_vec();
+                    for h in m.headers.iter_mut() {
+                        h.eol = b"\n".to_vec();
+                    }
+                    m.blank = b"\n".to_vec();
+                }
+                1 => {
+                    let i = sel_index(m, *sel);
+                    m.headers[i].eol = b"\n".to_vec();
+                }
+                2 => m.blank = b"\n".to_vec(),
+                _ => {
+                    for c in m.chunks.iter_mut().chain(m.last_chunk.iter_mut()) {
+                        c.eol = b"\n".to_vec();
+                    }
+                    if m.chunks.is_empty() {
+                        m.line_eol = b"\n".to_vec();
+                    }
+                }
+            }
+        }
+        Mut::BareCr { req, sel, payload } => {
+            let m = &mut msgs[pick(*req)];
+            let i = sel_index(m, *sel);
+            let extra: Vec<u8> = match payload % 3 {
+                0 => b"\rx".to_vec(),
+                1 => format!("\rContent-Length: {}", m.body_len + 1).into_bytes(),
+                _ => b"\rTransfer-Encoding: chunked".to_vec(),
+            };
+            m.headers[i].value.extend_from_slice(&extra);
+        }
+        Mut::BadByte { req, sel, in_name, byte, pos } => {
+            let m = &mut msgs[pick(*req)];
+            let i = sel_index(m, *sel);
+            let field = if *in_name { &mut m.headers[i].name } else { &mut m.headers[i].value };
+            let at = pick_idx(*pos, field.len() + 1);
+            field.insert(at, *byte);
+        }
+        Mut::Chunk { req, form } => {
+            let k = pick(*req);
+            // needs a chunked body: rebuild the message body as chunked when it is not
+            if msgs[k].last_chunk.is_none() {
+                let m = &mut msgs[k];
+                let p = std::mem::take(&mut m.plain);
+                m.headers.retain(|h| h.role != Role::Cl);
+                m.headers.push(hdr(Role::Te, "Transfer-Encoding", b"chunked"));
+                let data = if p.is_empty() { letters(specs[k].method as u64, 5) } else { p };
+                m.body_len = data.len();
+                m.chunks.push(ChunkW { size: format!("{:x}", data.len()).into_bytes(), ext: vec![], eol: b"\r\n".to_vec(), data, data_eol: b"\r\n".to_vec() });
+                m.last_chunk = Some(ChunkW { size: b"0".to_vec(), ext: vec![], eol: b"\r\n".to_vec(), data: vec![], data_eol: vec![] });
+                m.final_eol = b"\r\n".to_vec();
+            }
+            let m = &mut msgs[k];
+            if m.chunks.is_empty() {
+                let data = letters(7, 5);
+                m.body_len = 5;
+                m.chunks.push(ChunkW { size: b"5".to_vec(), ext: vec![], eol: b"\r\n".to_vec(), data, data_eol: b"\r\n".to_vec() });
+            }
+            let c = &mut m.chunks[0];
+            let size_txt = String::from_utf8_lossy(&c.size).to_string();
+            match form % CHUNK_FORMS {
+                0 => c.size = format!("1{:016x}", c.data.len()).into_bytes(),
+                1 => c.size = format!("000000000000000000000000{size_txt}").into_bytes(),
+                2 => c.size = format!("0x{size_txt}").into_bytes(),
+                3 => c.size = format!("-{size_txt}").into_bytes(),
+                4 => c.size = format!("{size_txt} ").into_bytes(),
+                5 => c.size = format!(" {size_txt}").into_bytes(),
+                6 => c.size = format!("+{size_txt}").into_bytes(),
+                7 => c.size = size_txt.to_ascii_uppercase().into_bytes(),
+                8 => c.ext = b";a=b".to_vec(),
+                9 => c.ext = b" ; a = b".to_vec(),
+                10 => c.ext = b";a=\"x\r\ny\"".to_vec(),
+                11 => c.ext = b";".to_vec(),
+                12 => c.data_eol = vec![],
+                13 => m.final_eol = vec![],
+                14 => m.trailers.push(b"X-Trailer: 1\r\n".to_vec()),
+                15 => m.trailers.push(b"Content-Length: 3\r\n".to_vec()),
+                16 => m.trailers.push(b"Transfer-Encoding: chunked\r\n".to_vec()),
+                17 => c.eol = b"\n".to_vec(),
+                18 => c.data_eol = b"\n".to_vec(),
+                19 => c.size = b"ffffffffffffffff".to_vec(),
+                20 => {
+                    if let Some(l) = m.last_chunk.as_mut() {
+                        l.size = b"00".to_vec();
+                    }
+                }
+                21 => {
+                    if let Some(l) = m.last_chunk.as_mut() {
+                        l.ext = b";last=1".to_vec();
+                    }
+                }
+                _ => c.eol = b"\r".to_vec(),
+            }
+        }
+        Mut::Version { req, form } => {
+            let m = &mut msgs[pick(*req)];
+            match form % VERSION_FORMS {
+                0 => m.version = b"HTTP/1.0".to_vec(),
+                1 => m.version = b"HTTP/1.2".to_vec(),
+                2 => m.version = b"HTTP/2.0".to_vec(),
+                3 => m.version = b"http/1.1".to_vec(),
+                4 => m.version = b"HTTP/1.10".to_vec(),
+                5 => {
+                    m.sp2 = vec![];
+                    m.version = vec![];
+                }
+                6 => m.version = b"HTTP/0.9".to_vec(),
+                7 => m.line_tail = b" ".to_vec(),
+                _ => m.version = b"HTTP/01.1".to_vec(),
+            }
+        }
+        Mut::Host { req, form } => {
+            let k = pick(*req);
+            let own = format!("c{}.lab", specs[k].host % 2);
+            let other = format!("c{}.lab", (specs[k].host + 1) % 2);
+            let m = &mut msgs[k];
+            let i = sel_index(m, Sel::Host);
+            let path = specs[k].path.clone();
+            match form % HOST_FORMS {
+                0 => m.headers.insert(i + 1, hdr(Role::Added, "Host", own.as_bytes())),
+                1 => m.headers.insert(i + 1, hdr(Role::Added, "Host", other.as_bytes())),
+                2 => m.headers.insert(i, hdr(Role::Added, "Host", other.as_bytes())),
+                3 => m.headers[i].value = vec![],
+                4 => {
+                    m.headers.remove(i);
+                }
+                5 => m.headers[i].value = format!("{own}:80").into_bytes(),
+                6 => m.target = format!("http://{other}{path}").into_bytes(),
+                7 => m.headers[i].value = format!("{other}@{own}").into_bytes(),
+                8 => m.headers[i].value = format!("{own}, {other}").into_bytes(),
+                9 => m.headers[i].value = format!("{own} {other}").into_bytes(),
+                10 => m.headers[i].value = format!("{own}\t").into_bytes(),
+                11 => m.headers[i].value = own.to_ascii_uppercase().into_bytes(),
+                12 => m.headers[i].value = format!("{own}.").into_bytes(),
+                13 => {
+                    m.target = format!("http://{own}{path}").into_bytes();
+                    m.headers[i].value = other.into_bytes();
+                }
+                14 => m.headers[i].value = format!("{own}:0").into_bytes(),
+                _ => m.headers[i].value = format!("{own}:").into_bytes(),
+            }
+        }
+        Mut::ReqLine { req, form } => {
+            let m = &mut msgs[pick(*req)];
+            match form % REQLINE_FORMS {
+                0 => m.sp1 = b"  ".to_vec(),
+                1 => {
+                    m.sp1 = b"\t".to_vec();
+                    m.sp2 = b"\t".to_vec();
+                }
+                2 => m.pre = b"\r\n".to_vec(),
+                3 => m.pre = b" ".to_vec(),
+                4 => m.sp2 = b"  ".to_vec(),
+                5 => m.target.extend_from_slice(b" x"),
+                6 => m.method = m.method.to_ascii_lowercase(),
+                7 => m.line_tail = b" extra".to_vec(),
+                8 => m.line_eol = b"\r".to_vec(),
+                9 => m.pre = b"\r\n\r\n".to_vec(),
+                10 => {
+                    if m.target.first() == Some(&b'/') {
+                        m.target.remove(0);
+                    }
+                }
+                11 => {
+                    m.method = b"GET".to_vec();
+                    m.target = b"*".to_vec();
+                }
+                12 => m.method = vec![],
+                13 => m.method = b"GE:T".to_vec(),
+                14 => m.target.extend_from_slice(b"#frag"),
+                15 => m.target.extend_from_slice(b"\0x"),
+                _ => m.target = vec![],
+            }
+        }
+        _ => {}
+    }
+}
+
+fn apply_bytes(stream: &mut Vec<u8>, mu: &Mut) {
+    let n = stream.len();
+    if n == 0 {
+        return;
+    }
+    match mu {
+        Mut::Flip { pos, mask } => {
+            let i = pick_idx(*pos, n);
+            stream[i] ^= if *mask == 0 { 1 } else { *mask };
+        }
+        Mut::Delete { pos, len } => {
+            let i = pick_idx(*pos, n);
+            let l = (*len as usize).max(1).min(n - i);
+            stream.drain(i..i + l);
+        }
+        Mut::Dup { pos, len } => {
+            let i = pick_idx(*pos, n);
+            let l = (*len as usize).max(1).min(n - i);
+            let span = stream[i..i + l].to_vec();
+            let at = i + l;
+            stream.splice(at..at, span);
+        }
+        Mut::Insert { pos, token } => {
+            let i = pick_idx(*pos, n + 1);
+            let t = INSERT_TOKENS[*token as usize % INSERT_TOKENS.len()];
+            stream.splice(i..i, t.iter().copied());
+        }
+        Mut::Truncate { pos } => {
+            let i = pick_idx(*pos, n).max(1);
+            stream.truncate(i);
+        }
+        _ => {}
+    }
+}
+
+pub struct Built {
+    pub bytes: Vec<u8>,
+    pub labels: Vec<&'static str>,
+    pub excluded: u64,
+}
+
+pub fn build(case: &Case) -> Built {
+    let n = case.reqs.len();
+    let mut msgs: Vec<Msg> = case.reqs.iter().enumerate().map(|(k, r)| build_msg(case, k, r, k + 1 == n)).collect();
+    let mut labels = vec![];
+    let mut excluded = 0;
+    // known finding `request-not-emitted-by-sozu:after-no-body`: a request without Content-Length / Transfer-Encoding
+    // swallows the requests pipelined behind it; generated cases give such a request an explicit `Content-Length: 0`
+    if !case.strict && KNOWN.with(|k| k.get()) {
+        for k in 0..n.saturating_sub(1) {
+            if case.reqs[k].body == Body::None {
+                msgs[k].headers.push(hdr(Role::Cl, "Content-Length", b"0"));
+                excluded += 1;
+            }
+        }
+    }
+    let mut applied: Vec<&Mut> = vec![];
+    for mu in &case.muts {
+        if !case.strict && known_shape(mu, &msgs).is_some() {
+            excluded += 1;
+            continue;
+        }
+        applied.push(mu);
+        labels.push(mut_label(mu));
+        apply_structured(&mut msgs, &case.reqs, mu);
+    }
+    let mut bytes = vec![];
+    for m in &msgs {
+        bytes.extend(serialise(m));
+    }
+    for mu in &applied {
+        apply_bytes(&mut bytes, mu);
+    }
+    Built { bytes, labels, excluded }
+}
+
+// ------------------------------------------------------------------ strategies
+
+fn header_value() -> impl Strategy<Value = String> {
+    "[A-Za-z0-9][A-Za-z0-9;=,./_ -]{0,18}[A-Za-z0-9]".prop_map(|s| s)
+}
+
+fn body_len() -> impl Strategy<Value = usize> {
+    prop_oneof![2 => Just(0usize), 6 => 1usize..60, 2 => 60usize..600, 1 => prop_oneof![Just(16384usize), Just(16393), 16000usize..40000]]
+}
+
+fn req_spec() -> impl Strategy<Value = ReqSpec> {
+    (
+        prop_oneof![4 => Just(0u8), 4 => Just(1u8), 1 => Just(2u8), 1 => Just(3u8), 1 => Just(4u8), 1 => Just(5u8), 1 => Just(6u8), 1 => Just(7u8)],
+        "/[a-z0-9]{1,8}(/[a-z0-9]{1,5})?(\\?[a-z]=[0-9]{1,3})?",
+        prop::bool::weighted(0.1),
+        prop_oneof![4 => Just(0u8), 1 => Just(1u8)],
+        prop::collection::vec((0u8..EXTRA_NAMES.len() as u8, header_value()), 0..4),
+        prop_oneof![
+            3 => Just(Body::None),
+            4 => body_len().prop_map(Body::Cl),
+            3 => (body_len(), prop::collection::vec(prop_oneof![Just(1usize), 1usize..40, 40usize..5000], 1..4)).prop_map(|(l, s)| Body::Chunked(l, s)),
+        ],
+        prop_oneof![5 => Just(0u8), 2 => Just(1u8), 2 => Just(2u8)],
+    )
+        .prop_map(|(method, path, absolute, host, mut extra, body, payload)| {
+            // one field per name (two Cookie / Connection fields are a different experiment)
+            let mut seen = vec![];
+            extra.retain(|(n, _)| {
+                let keep = !seen.contains(n);
+                seen.push(*n);
+                keep
+            });
+            ReqSpec { method, path, absolute, host, extra, body, payload }
+        })
+}
+
+fn sel() -> impl Strategy<Value = Sel> {
+    prop_oneof![4 => Just(Sel::Framing), 2 => Just(Sel::Host), 1 => Just(Sel::Marker), 2 => (0u8..4).prop_map(Sel::Extra)]
+}
+
+fn bad_byte() -> impl Strategy<Value = u8> {
+    prop_oneof![3 => Just(0u8), 3 => 1u8..9, 1 => Just(0x0bu8), 1 => Just(0x0cu8), 2 => 0x0eu8..0x20, 1 => Just(0x7fu8), 3 => 0x80u8..=0xff, 1 => Just(b' '), 1 => Just(b'('), 1 => Just(b'"'), 1 => Just(b'/')]
+}
+
+fn mutator() -> impl Strategy<Value = Mut> {
+    let r = any::<u32>;
+    prop_oneof![
+        4 => (r(), 0u8..TE_FORMS.len() as u8, any::<bool>()).prop_map(|(req, form, before)| Mut::AddTe { req, form, before }),
+        3 => (r(), prop_oneof![Just(0i8), Just(1), Just(-1), Just(5), -20i8..20], any::<bool>()).prop_map(|(req, delta, before)| Mut::AddCl { req, delta, before }),
+        4 => (r(), 0u8..CL_FORMS).prop_map(|(req, form)| Mut::ClForm { req, form }),
+        4 => (r(), 0u8..TE_FORMS.len() as u8).prop_map(|(req, form)| Mut::TeForm { req, form }),
+        2 => (r(), 0u8..TE_SPLITS.len() as u8).prop_map(|(req, form)| Mut::TeSplit { req, form }),
+        2 => (r(), sel(), any::<bool>()).prop_map(|(req, sel, tab)| Mut::WsColon { req, sel, tab }),
+        2 => (r(), sel(), 0u8..3).prop_map(|(req, sel, cont)| Mut::ObsFold { req, sel, cont }),
+        2 => (r(), 0u8..4, sel()).prop_map(|(req, which, sel)| Mut::BareLf { req, which, sel }),
+        2 => (r(), sel(), 0u8..3).prop_map(|(req, sel, payload)| Mut::BareCr { req, sel, payload }),
+        3 => (r(), sel(), any::<bool>(), bad_byte(), any::<u32>()).prop_map(|(req, sel, in_name, byte, pos)| Mut::BadByte { req, sel, in_name, byte, pos }),
+        4 => (r(), 0u8..CHUNK_FORMS).prop_map(|(req, form)| Mut::Chunk { req, form }),
+        2 => (r(), 0u8..VERSION_FORMS).prop_map(|(req, form)| Mut::Version { req, form }),
+        3 => (r(), 0u8..HOST_FORMS).prop_map(|(req, form)| Mut::Host { req, form }),
+        3 => (r(), 0u8..REQLINE_FORMS).prop_map(|(req, form)| Mut::ReqLine { req, form }),
+        2 => (any::<u32>(), prop_oneof![Just(1u8), Just(0x20), Just(0x80), any::<u8>()]).prop_map(|(pos, mask)| Mut::Flip { pos, mask }),
+        2 => (any::<u32>(), prop_oneof![Just(1u8), Just(2), 1u8..40]).prop_map(|(pos, len)| Mut::Delete { pos, len }),
+        2 => (any::<u32>(), prop_oneof![Just(1u8), Just(2), 1u8..80]).prop_map(|(pos, len)| Mut::Dup { pos, len }),
+        2 => (any::<u32>(), 0u8..INSERT_TOKENS.len() as u8).prop_map(|(pos, token)| Mut::Insert { pos, token }),
+        1 => any::<u32>().prop_map(|pos| Mut::Truncate { pos }),
+    ]
+}
+
+fn write_script() -> impl Strategy<Value = WriteScript> {
+    // segmentation of the client's bytes: single write, dribbles, splits at generated sizes, short pauses
+    let step = prop_oneof![
+        5 => prop_oneof![Just(1usize), Just(2), Just(3), 1usize..40, 40usize..400, 400usize..20000].prop_map(WStep::Write),
+        1 => (1u16..25).prop_map(WStep::PauseMs),
+    ];
+    prop_oneof![2 => Just(vec![]), 3 => prop::collection::vec(step, 1..30)].prop_map(|mut steps| {
+        let mut budget = 80u64;
+        for s in steps.iter_mut() {
+            if let WStep::PauseMs(m) = s {
+                let take = (*m as u64).min(budget);
+                budget -= take;
+                *m = take as u16;
+            }
+        }
+        steps.retain(|s| !matches!(s, WStep::PauseMs(0)));
+        WriteScript { steps, sndbuf: None }
+    })
+}
+
+/// clean pipelined sequences (no mutator)
+pub fn clean_strategy() -> impl Strategy<Value = Case> {
+    (any::<u32>(), prop::collection::vec(req_spec(), 1..4), write_script(), prop::bool::weighted(0.7))
+        .prop_map(|(nonce, reqs, write, close_last)| Case { nonce, reqs, muts: vec![], write, close_last, strict: false })
+}
+
+pub fn smuggle_strategy() -> impl Strategy<Value = Case> {
+    (any::<u32>(), prop::collection::vec(req_spec(), 1..4), prop::collection::vec(mutator(), 1..4), write_script(), prop::bool::weighted(0.7))
+        .prop_map(|(nonce, reqs, muts, write, close_last)| Case { nonce, reqs, muts, write, close_last, strict: false })
+}
+
+// ------------------------------------------------------------------ lab: recording backends
+
+#[derive(Default)]
+struct Rec {
+    /// bytes per (backend, connection), in order of arrival
+    raw: BTreeMap<(usize, usize), Vec<u8>>,
+    open: usize,
+    /// total bytes recorded (progress indicator)
+    total: usize,
+}
+
+pub struct Lab {
+    pub http: HttpLab,
+    backends: Vec<Acceptor>,
+    rec: Arc<Mutex<Rec>>,
+    stop: Arc<AtomicBool>,
+}
+
+const CLUSTERS: usize = 2;
+
+/// A backend that never interprets for the record: it stores every byte, and answers 200 (2-byte body) to each
+/// request the STRICT reference reader can read on the connection so far, so that sozu keeps going.
+fn serve(backend: usize, conn: usize, mut stream: TcpStream, rec: Arc<Mutex<Rec>>, stop: Arc<AtomicBool>) {
+    let _ = stream.set_read_timeout(Some(Duration::from_millis(25)));
+    rec.lock().unwrap().open += 1;
+    let strict = Opts::strict();
+    let mut buf: Vec<u8> = vec![];
+    let mut answered = 0usize;
+    let mut tmp = vec![0u8; 65536];
+    loop {
+        match stream.read(&mut tmp) {
+            Ok(0) => break,
+            Ok(n) => {
+                buf.extend_from_slice(&tmp[..n]);
+                {
+                    let mut g = rec.lock().unwrap();
+                    g.raw.entry((backend, conn)).or_default().extend_from_slice(&tmp[..n]);
+                    g.total += n;
+                }
+                let rd = http::read_requests(&buf, &strict);
+                let done: Vec<&Req> = rd.reqs.iter().filter(|r| r.complete).collect();
+                while answered < done.len() {
+                    let q = done[answered];
+                    let head = q.method.eq_ignore_ascii_case("HEAD");
+                    let resp = format!(
+                        "HTTP/1.1 200 OK\r\nContent-Length: 2\r\nX-C03: {backend}-{conn}-{answered}\r\n{}\r\n{}",
+                        if head { "X-C03-Head: 1\r\n" } else { "" },
+                        if head { "" } else { "ok" }
+                    );
+                    if stream.write_all(resp.as_bytes()).is_err() {
+                        break;
+                    }
+                    answered += 1;
+                }
+            }
+            Err(e) => match e.kind() {
+                std::io::ErrorKind::WouldBlock | std::io::ErrorKind::TimedOut | std::io::ErrorKind::Interrupted => {
+                    if stop.load(Ordering::SeqCst) {
+                        break;
+                    }
+                }
+                _ => break,
+            },
+        }
+    }
+    let mut g = rec.lock().unwrap();
+    g.open = g.open.saturating_sub(1);
+}
+
+impl Lab {
+    pub fn new() -> Lab {
+        let mut http = HttpLab::new("c03", LabConfig::default(), 0);
+        let rec = Arc::new(Mutex::new(Rec::default()));
+        let stop = Arc::new(AtomicBool::new(false));
+        let mut backends = vec![];
+        for i in 0..CLUSTERS {
+            let cluster = format!("c{i}");
+            http.worker.add_cluster(&cluster, |_| {});
+            http.worker.add_http_frontend(&cluster, http.http_addr, &format!("c{i}.lab"), "/");
+            let (addr, listener) = lab::bound_listener();
+            http.worker.add_backend(&cluster, &format!("{cluster}-0"), addr);
+            let (r2, s2) = (rec.clone(), stop.clone());
+            backends.push(Acceptor::spawn(listener, move |conn, stream| serve(i, conn, stream, r2.clone(), s2.clone())));
+        }
+        Lab { http, backends, rec, stop }
+    }
+}
+
+impl Drop for Lab {
+    fn drop(&mut self) {
+        self.stop.store(true, Ordering::SeqCst);
+        for b in self.backends.iter_mut() {
+            b.stop();
+        }
+    }
+}
+
+pub struct Observed {
+    /// what the client wrote
+    pub sent: Vec<u8>,
+    /// what the client received
+    pub received: Vec<u8>,
+    pub client_closed_by_peer: bool,
+    /// (backend, conn) -> bytes
+    pub at_backend: BTreeMap<(usize, usize), Vec<u8>>,
+    pub listener_port: u16,
+    /// marker prefix of this scenario (None: do not filter)
+    pub nonce: Option<String>,
+    /// backend connections were still open when the observation ended (the lab must not be reused)
+    pub dirty: bool,
+}
+
+/// Drive one client connection: write `bytes` following the script while reading, stop when sozu closes or when
+/// nothing moved (client and backends) for a quiet period after the last write.
+fn observe(lab: &mut Lab, bytes: &[u8], write: &WriteScript) -> Result<Observed, Failure> {
+    {
+        let mut g = lab.rec.lock().unwrap();
+        g.raw.clear();
+        g.total = 0;
+    }
+    let stream = lab.http.client().map_err(|e| Failure::new("C03/connect-refused", format!("connect to the HTTP listener failed: {e}")))?;
+    let _ = stream.set_read_timeout(Some(Duration::from_millis(10)));
+    let mut w = stream.try_clone().expect("clone");
+    let data = bytes.to_vec();
+    let ws = write.clone();
+    let writer = std::thread::spawn(move || {
+        let r = script::write_scripted(&mut w, &data, &ws);
+        r.is_ok()
+    });
+    let mut r = stream;
+    let mut received = vec![];
+    let mut closed = false;
+    let mut tmp = vec![0u8; 65536];
+    let start = Instant::now();
+    let mut last_move = Instant::now();
+    let mut last_total = 0usize;
+    let quiet = Duration::from_millis(220);
+    loop {
+        match r.read(&mut tmp) {
+            Ok(0) => {
+                closed = true;
+                break;
+            }
+            Ok(n) => {
+                received.extend_from_slice(&tmp[..n]);
+                last_move = Instant::now();
+            }
+            Err(e) => match e.kind() {
+                std::io::ErrorKind::WouldBlock | std::io::ErrorKind::TimedOut | std::io::ErrorKind::Interrupted => {}
+                _ => {
+                    closed = true;
+                    break;
+                }
+            },
+        }
+        let total = lab.rec.lock().unwrap().total;
+        if total != last_total {
+            last_total = total;
+            last_move = Instant::now();
+        }
+        if !writer.is_finished() {
+            last_move = Instant::now();
+        }
+        if last_move.elapsed() > quiet || start.elapsed() > Duration::from_secs(6) {
+            break;
+        }
+    }
+    // closing the client ends the session; the writer fails at once if it was still blocked
+    let _ = r.shutdown(std::net::Shutdown::Both);
+    let _ = writer.join();
+    drop(r);
+    // sozu closes its backend connections with the session
+    let end = Instant::now() + Duration::from_millis(900);
+    let mut dirty = true;
+    let mut calm_since: Option<(Instant, usize)> = None;
+    while Instant::now() < end {
+        let accepted: usize = lab.backends.iter().map(|b| b.accepted.load(Ordering::SeqCst)).sum();
+        let open = lab.rec.lock().unwrap().open;
+        match (open, calm_since) {
+            (0, Some((t, a))) if a == accepted => {
+                if t.elapsed() >= Duration::from_millis(25) {
+                    dirty = false;
+                    break;
+                }
+            }
+            (0, _) => calm_since = Some((Instant::now(), accepted)),
+            _ => calm_since = None,
+        }
+        std::thread::sleep(Duration::from_millis(2));
+    }
+    let at_backend = lab.rec.lock().unwrap().raw.clone();
+    Ok(Observed { sent: bytes.to_vec(), received, client_closed_by_peer: closed, at_backend, listener_port: lab.http.http_addr.port(), nonce: None, dirty })
+}
+
+// ------------------------------------------------------------------ oracle
+
+fn esc(b: &[u8], max: usize) -> String {
+    let s = b.escape_ascii().to_string();
+    engine::truncate(&s, max)
+}
+
+/// complete-message boundaries plus the start of an incomplete tail message
+fn shape(r: &Reading) -> Vec<(usize, usize, bool)> {
+    r.reqs.iter().map(|q| (q.start, if q.complete { q.end } else { q.head_end }, q.complete)).collect()
+}
+
+/// number of leading messages of the strict reading on which every variant agrees
+fn agreed_prefix(bytes: &[u8], strict: &Reading, variants: &[Opts]) -> (usize, Option<&'static str>) {
+    let base = shape(strict);
+    let mut n = base.iter().filter(|x| x.2).count();
+    let mut who = None;
+    for v in variants {
+        let rv = http::read_requests(bytes, v);
+        let sv = shape(&rv);
+        let mut k = 0;
+        while k < base.len() && k < sv.len() && base[k] == sv[k] && base[k].2 {
+            k += 1;
+        }
+        if k < n {
+            who = Some(v.name);
+            n = k;
+        }
+    }
+    (n, who)
+}
+
+fn first_variant_disagreeing(bytes: &[u8], strict: &Reading, variants: &[Opts]) -> Option<(&'static str, String)> {
+    let base = shape(strict);
+    for v in variants {
+        let rv = http::read_requests(bytes, v);
+        if shape(&rv) != base {
+            return Some((v.name, rv.describe()));
+        }
+    }
+    None
+}
+
+fn marker_of(q: &Req) -> Option<String> {
+    q.header_str("x-m").filter(|m| m.len() >= 4)
+}
+
+fn host_only(h: &str) -> String {
+    let h = h.trim();
+    let h = h.rsplit_once('@').map(|(_, x)| x).unwrap_or(h);
+    let h = match h.rsplit_once(':') {
+        Some((a, p)) if p.bytes().all(|c| c.is_ascii_digit()) => a,
+        _ => h,
+    };
+    h.to_ascii_lowercase()
+}
+
+fn framing_name(f: &Framing) -> &'static str {
+    match f {
+        Framing::None => "no-body",
+        Framing::ContentLength(_) => "content-length",
+        Framing::Chunked => "chunked",
+    }
+}
+
+fn is_ulid(v: &[u8]) -> bool {
+    v.len() == 26 && v.iter().all(|c| c.is_ascii_alphanumeric())
+}
+
+fn find_sub(h: &[u8], n: &[u8]) -> bool {
+    !n.is_empty() && h.windows(n.len()).any(|w| w == n)
+}
+
+fn count_sub(h: &[u8], n: &[u8]) -> usize {
+    if n.is_empty() {
+        return 0;
+    }
+    h.windows(n.len()).filter(|w| *w == n).count()
+}
+
+/// every `name: value` a lenient line splitter finds anywhere in the client's bytes
+fn client_pairs(c: &[u8]) -> std::collections::BTreeSet<(String, Vec<u8>)> {
+    let mut set = std::collections::BTreeSet::new();
+    for line in c.split(|&b| b == b'\n') {
+        let line = line.strip_suffix(b"\r").unwrap_or(line);
+        // also lines a bare CR separates
+        for part in line.split(|&b| b == b'\r') {
+            if let Some(i) = part.iter().position(|&b| b == b':') {
+                let name = String::from_utf8_lossy(&part[..i]).trim().to_ascii_lowercase();
+                let value = String::from_utf8_lossy(&part[i + 1..]).trim_matches(|ch| ch == ' ' || ch == '\t').as_bytes().to_vec();
+                // lossy conversions only matter for bytes sozu refuses anyway; keep the raw value too
+                let raw: Vec<u8> = {
+                    let mut v = &part[i + 1..];
+                    while let [b' ' | b'\t', rest @ ..] = v {
+                        v = rest;
+                    }
+                    while let [rest @ .., b' ' | b'\t'] = v {
+                        v = rest;
+                    }
+                    v.to_vec()
+                };
+                set.insert((name.clone(), value));
+                set.insert((name, raw));
+            }
+        }
+    }
+    set
+}
+
+/// A Transfer-Encoding value, in a head sozu wrote, that is not a plain token list ending in `chunked`
+/// (`chunked`, `gzip, chunked`, any letter case): raw value as forwarded.
+pub fn noncanonical_te(o: &[u8]) -> Option<String> {
+    let mut start = 0;
+    while start < o.len() {
+        let end = o[start..].windows(4).position(|w| w == b"\r\n\r\n").map(|p| start + p + 2).unwrap_or(o.len());
+        let block = &o[start..end];
+        if find_sub(block, b"\r\nSozu-Id: ") {
+            for line in block.split(|&b| b == b'\n') {
+                let line = line.strip_suffix(b"\r").unwrap_or(line);
+                if line.len() > 18 && line[..18].eq_ignore_ascii_case(b"transfer-encoding:") {
+                    let raw = &line[18..];
+                    let raw = raw.strip_prefix(b" ").unwrap_or(raw);
+                    let tokens: Vec<&[u8]> = raw.split(|&b| b == b',').map(|t| t.strip_prefix(b" ").unwrap_or(t)).collect();
+                    let ok = !tokens.is_empty() && tokens.iter().all(|t| !t.is_empty() && t.iter().all(|&c| http::is_tchar(c))) && tokens.last().unwrap().eq_ignore_ascii_case(b"chunked");
+                    if !ok {
+                        return Some(String::from_utf8_lossy(raw).to_string());
+                    }
+                } else if line.len() == 18 && line.eq_ignore_ascii_case(b"transfer-encoding:") {
+                    return Some(String::new());
+                }
+            }
+        }
+        start = end + 2;
+    }
+    None
+}
+
+/// The oracle: a pure function of what was sent, what every backend connection received and what the client got back.
+pub fn judge(obs: &Observed) -> CheckResult {
+    match judge_inner(obs) {
+        Err(f) if ["C03/backend-stream", "C03/request-not-emitted", "C03/no-length-request", "C03/forwarded-differs"].iter().any(|p| f.signature.starts_with(p)) => {
+            // one root cause, many symptoms: sozu forwarded a Transfer-Encoding it did not itself read as the backend will
+            match obs.at_backend.values().find_map(|o| noncanonical_te(o)) {
+                Some(raw) => Err(Failure::new(
+                    "C03/unrecognised-transfer-encoding-forwarded",
+                    format!("sozu forwarded the field `Transfer-Encoding: {}` (not a token list ending in chunked) instead of refusing or normalising it; symptom [{}]: {}", raw.escape_debug(), f.signature, f.message),
+                )),
+                None => Err(f),
+            }
+        }
+        other => other,
+    }
+}
+
+fn judge_inner(obs: &Observed) -> CheckResult {
+    let mut rep = CaseReport::default();
+    let strict = Opts::strict();
+    let variants = http::variants();
+    let c = &obs.sent;
+    let sc = http::read_requests(c, &strict);
+    let (agreed, _) = agreed_prefix(c, &sc, &variants);
+    let client_clean = sc.tail == Tail::Clean && agreed == sc.reqs.len();
+    let norm = http::read_requests(c, &Opts::normalising());
+    let pairs = client_pairs(c);
+    let ctx = |o: &[u8]| format!("client sent {:?}; backend received {:?}", esc(c, 700), esc(o, 900));
+
+    let mut found_total = 0usize;
+    let mut markers_at_backend: BTreeMap<String, usize> = BTreeMap::new();
+    for ((b, conn), o) in &obs.at_backend {
+        // a connection sozu opened late for the previous scenario's session (its client had already gone)
+        if let Some(nonce) = &obs.nonce {
+            if let Some(p) = o.windows(5).position(|w| w == b"X-M: ") {
+                let m = &o[p + 5..(p + 11).min(o.len())];
+                if m.len() == 6 && m.iter().all(|c| c.is_ascii_hexdigit()) && m != nonce.as_bytes() && !find_sub(c, m) {
+                    rep.class("stale_backend_connection_ignored");
+                    continue;
+                }
+            }
+        }
+        let s = http::read_requests(o, &strict);
+        // (B) every request a backend can find was emitted by sozu as a request (it carries the per-request
+        // correlation header sozu adds to each head it understood) — checked first: it names the effect
+        for (k, q) in s.reqs.iter().enumerate() {
+            found_total += 1;
+            let ids = q.header_values("sozu-id");
+            if ids.len() != 1 {
+                let prev_none = k > 0 && s.reqs[k - 1].framing == Framing::None;
+                let sig = if prev_none {
+                    "C03/no-length-request-swallows-following-bytes".to_string()
+                } else if k == 0 {
+                    "C03/request-not-emitted-by-sozu:first".to_string()
+                } else {
+                    format!("C03/request-not-emitted-by-sozu:after-{}", framing_name(&s.reqs[k - 1].framing))
+                };
+                fail!(
+                    sig,
+                    "backend c{b} connection {conn}: a strict RFC 9112 reader finds {} requests, request {k} ({} {}) carries {} Sozu-Id fields: sozu did not write it as a request (it forwarded it as part of another message), yet the backend will serve it. strict reading: {}. {}",
+                    s.reqs.len(),
+                    q.method,
+                    q.target,
+                    ids.len(),
+                    s.describe(),
+                    ctx(o)
+                );
+            }
+        }
+        // bytes sozu forwarded behind a request that has no body framing (they are not a head sozu wrote)
+        if let (Some(last), Tail::Reject { at, detail, .. }) = (s.reqs.last(), &s.tail) {
+            let rest = &o[last.end.min(o.len())..];
+            let head_end = rest.windows(4).position(|w| w == b"\r\n\r\n").map(|p| p + 4).unwrap_or(rest.len());
+            let stamped = find_sub(&rest[..head_end], b"\r\nSozu-Id: ");
+            if last.complete && last.framing == Framing::None && *at >= last.end && !stamped {
+                fail!(
+                    "C03/no-length-request-swallows-following-bytes",
+                    "backend c{b} connection {conn}: request {} ({} {}) has neither Content-Length nor Transfer-Encoding, so it ends with its head (RFC 9112 §6.3), but sozu forwarded {} more bytes behind it that it did not write as a request head (a strict reader refuses them: {detail}). {}",
+                    s.reqs.len() - 1,
+                    last.method,
+                    last.target,
+                    rest.len(),
+                    ctx(o)
+                );
+            }
+        }
+        // (1) the stream is RFC 9112 for the most conservative reader
+        if let Tail::Reject { at, class, detail } = &s.tail {
+            let mut others = String::new();
+            for v in variants.iter().chain(http::diagnostic_variants().iter()) {
+                let rv = http::read_requests(o, v);
+                if rv.accepted() && !rv.reqs.is_empty() {
+                    others.push_str(&format!(" | a `{}` backend reads: {}", v.name, rv.describe()));
+                    if others.len() > 900 {
+                        break;
+                    }
+                }
+            }
+            fail!(
+                format!("C03/backend-stream-not-rfc9112:{class}"),
+                "backend c{b} connection {conn}: what sozu wrote is refused by a strict RFC 9112 reader at offset {at}: {detail} (after {} readable requests){}. {}",
+                s.reqs.len(),
+                engine::truncate(&others, 1000),
+                ctx(o)
+            );
+        }
+        // (1) … and every permissive reader finds the same boundaries
+        if let Some((name, reading)) = first_variant_disagreeing(o, &s, &variants) {
+            fail!(
+                format!("C03/backend-stream-ambiguous:{name}"),
+                "backend c{b} connection {conn}: the strict reader finds {} but a `{name}` backend finds {}. {}",
+                s.describe(),
+                reading,
+                ctx(o)
+            );
+        }
+        for (k, q) in s.reqs.iter().enumerate() {
+            // host as routed == host as read by the backend
+            let want = format!("c{b}.lab");
+            let got = q.host.clone().unwrap_or_default();
+            if host_only(&got) != want {
+                fail!("C03/host-differs-from-route", "backend c{b} connection {conn}: request {k} was routed to cluster c{b} (host {want}) but a backend reads host {got:?}. {}", ctx(o));
+            }
+            // (4) header provenance
+            for (n, v) in &q.headers {
+                let ln = n.to_ascii_lowercase();
+                if pairs.contains(&(ln.clone(), v.clone())) {
+                    continue;
+                }
+                let ok = match ln.as_str() {
+                    "host" => find_sub(c, v) || v.is_empty(),
+                    "x-forwarded-for" => {
+                        v.as_slice() == b"127.0.0.1"
+                            || v.strip_suffix(b", 127.0.0.1").map(|p| pairs.contains(&("x-forwarded-for".into(), p.to_vec()))).unwrap_or(false)
+                    }
+                    "forwarded" => {
+                        let txt = String::from_utf8_lossy(v).to_string();
+                        match txt.rfind("proto=http;for=\"127.0.0.1:") {
+                            Some(0) => txt.ends_with("\";by=127.0.0.1"),
+                            Some(i) if i >= 2 => txt.ends_with("\";by=127.0.0.1") && &txt[i - 2..i] == ", " && pairs.contains(&("forwarded".into(), txt[..i - 2].as_bytes().to_vec())),
+                            _ => false,
+                        }
+                    }
+                    "x-forwarded-port" => v.as_slice() == obs.listener_port.to_string().as_bytes(),
+                    "x-forwarded-proto" => v.as_slice() == b"http",
+                    "x-request-id" | "sozu-id" => is_ulid(v),
+                    "connection" => v.as_slice() == b"close",
+                    // the cookie jar is re-serialised (`k=v; k=v`, a crumb without `=` becomes `=v`): every crumb's text is the client's
+                    "cookie" => v.split(|&x| x == b';').all(|crumb| {
+                        let t = String::from_utf8_lossy(crumb).trim().trim_matches('=').as_bytes().to_vec();
+                        t.is_empty() || find_sub(c, &t)
+                    }),
+                    _ => false,
+                };
+                if !ok {
+                    fail!(
+                        format!("C03/header-not-from-client:{}", if ln.len() <= 24 && ln.bytes().all(http::is_tchar) { ln.clone() } else { "other".into() }),
+                        "backend c{b} connection {conn}: request {k} carries the field {n:?}: {:?} which the client did not send and which is not in sozu's documented added set. {}",
+                        esc(v, 200),
+                        ctx(o)
+                    );
+                }
+            }
+            // (2) correspondence with the client's message
+            let Some(m) = marker_of(q) else {
+                rep.class("forwarded_without_marker");
+                continue;
+            };
+            *markers_at_backend.entry(m.clone()).or_insert(0) += 1;
+            // the client's messages with this marker (a duplicated span can carry it twice): strict reading where the
+            // client's stream is unambiguous, TE-wins normalising reading elsewhere
+            let mut cands: Vec<(&Req, &str)> = sc.reqs.iter().take(agreed).filter(|p| marker_of(p).as_deref() == Some(m.as_str())).map(|p| (p, "strict")).collect();
+            if cands.is_empty() {
+                cands = norm.reqs.iter().filter(|p| marker_of(p).as_deref() == Some(m.as_str())).map(|p| (p, "te-wins-normalised")).collect();
+            }
+            if cands.is_empty() {
+                rep.class("forwarded_from_a_message_no_reference_reader_accepts");
+                continue;
+            }
+            let how = cands[0].1;
+            rep.class(if how == "strict" { "forwarded_compared_strict" } else { "forwarded_compared_normalised" });
+            let compare = |p: &Req| -> Option<(&'static str, String)> {
+                if p.method != q.method {
+                    Some(("method", format!("{:?} vs {:?}", p.method, q.method)))
+                } else if p.target != q.target {
+                    Some(("target", format!("{:?} vs {:?}", p.target, q.target)))
+                } else if p.version != q.version {
+                    Some(("version", format!("{:?} vs {:?}", p.version, q.version)))
+                } else if host_only(&p.host.clone().unwrap_or_default()) != host_only(&got) {
+                    Some(("host", format!("{:?} vs {:?}", p.host, q.host)))
+                } else if q.complete && p.complete && p.body != q.body {
+                    Some(("body", format!("{} bytes ({:?}) vs {} bytes ({:?})", p.body.len(), p.framing, q.body.len(), q.framing)))
+                } else if !q.complete && !p.body.starts_with(&q.body) {
+                    Some(("body-prefix", format!("{} bytes vs {} bytes forwarded so far", p.body.len(), q.body.len())))
+                } else if q.complete && !p.complete {
+                    Some(("body-end", format!("the client's message is incomplete ({:?}, {} bytes so far) but the forwarded one is complete ({:?}, {} bytes)", p.framing, p.body.len(), q.framing, q.body.len())))
+                } else {
+                    None
+                }
+            };
+            let diffs: Vec<Option<(&'static str, String)>> = cands.iter().map(|(p, _)| compare(p)).collect();
+            let diff = if diffs.iter().any(|d| d.is_none()) { None } else { diffs.into_iter().next().flatten() };
+            if let Some((field, d)) = diff {
+                fail!(
+                    format!("C03/forwarded-differs:{field}"),
+                    "backend c{b} connection {conn}: request {k} (marker {m}) differs from the client's message as the {how} reader reads it: {field}: {d}. {}",
+                    ctx(o)
+                );
+            }
+        }
+    }
+    // (2) a client message reaches the backends at most as often as the client sent it
+    for (m, n) in &markers_at_backend {
+        let sent = count_sub(c, m.as_bytes());
+        if *n > sent {
+            fail!("C03/request-duplicated", "marker {m} occurs {sent} times in the client's bytes but {n} requests at the backends carry it. client sent {:?}", esc(c, 700));
+        }
+    }
+    // client side
+    let (resps, rtail) = http::read_responses(&obs.received, obs.client_closed_by_peer, |r| r.header_str("x-c03-head").is_some());
+    if let Tail::Reject { at, class, detail } = &rtail {
+        fail!(
+            format!("C03/client-response-stream-unreadable:{class}"),
+            "what the client received is not a sequence of HTTP/1.1 responses at offset {at}: {detail}; received {:?}; client sent {:?}",
+            esc(&obs.received, 900),
+            esc(c, 700)
+        );
+    }
+    let from_backend = resps.iter().filter(|r| r.header_str("x-c03").is_some()).count();
+    let mut ids: Vec<String> = resps.iter().filter_map(|r| r.header_str("x-c03")).collect();
+    ids.sort();
+    let n_ids = ids.len();
+    ids.dedup();
+    if ids.len() != n_ids {
+        fail!("C03/backend-response-delivered-twice", "the client received the same backend response twice: {:?}", esc(&obs.received, 900));
+    }
+    if from_backend > found_total {
+        fail!("C03/more-backend-answers-than-requests", "the client received {from_backend} backend responses but the backends saw {found_total} requests");
+    }
+
+    // ---- measurement
+    rep.nontrivial = !client_clean || sc.reqs.len() >= 2;
+    rep.class_if(client_clean, "client_stream_clean");
+    rep.class_if(!client_clean, "client_stream_not_strictly_readable");
+    rep.class_if(sc.reqs.len() >= 2, "pipelined_2+");
+    rep.class_if(found_total > 0, "reached_a_backend");
+    rep.class_if(found_total == 0, "nothing_reached_a_backend");
+    rep.class_if(resps.iter().any(|r| r.status == 400), "answered_400");
+    rep.class_if(resps.iter().any(|r| r.status >= 401 && r.header_str("x-c03").is_none()), "answered_other_proxy_error");
+    rep.class_if(from_backend > 0, "answered_by_backend");
+    rep.class_if(resps.is_empty() && obs.client_closed_by_peer, "closed_without_answer");
+    rep.class_if(!client_clean && found_total > 0, "malformed_or_ambiguous_yet_forwarded");
+    rep.class_if(obs.at_backend.len() >= 2, "2+_backend_connections");
+    rep.inner_evaluations = found_total as u64;
+    Ok(rep)
+}
+
+// ------------------------------------------------------------------ scenario
+
+pub fn scenario(lab: &mut Lab, case: &Case) -> Result<(CaseReport, bool), Failure> {
+    if !lab.http.worker.alive() {
+        return Err(Failure::new("C03/worker-died", format!("the worker thread is gone: {:?}", lab.http.worker.join())));
+    }
+    let built = build(case);
+    if built.bytes.is_empty() {
+        let mut rep = CaseReport::default();
+        rep.class("empty_stream");
+        return Ok((rep, false));
+    }
+    let mut obs = observe(lab, &built.bytes, &case.write)?;
+    obs.nonce = Some(format!("{:06x}", case.nonce & 0xff_ffff));
+    if !lab.http.worker.alive() {
+        return Err(Failure::new("C03/worker-died", format!("the worker thread died during the scenario: {:?}; client sent {:?}", lab.http.worker.join(), esc(&built.bytes, 900))));
+    }
+    let mut rep = match judge(&obs) {
+        Ok(r) => r,
+        Err(f) if std::env::var("VP_C03_SURVEY").is_ok() => {
+            // exploration aid: tally signatures instead of stopping at the first
+            eprintln!("SURVEY {} :: MUTS {:?} NREQ {} :: {}", f.signature, case.muts, case.reqs.len(), engine::truncate(&f.message, 1800));
+            let mut r = CaseReport::default();
+            r.class(format!("FAIL:{}", f.signature));
+            r
+        }
+        Err(f) => return Err(f),
+    };
+    rep.excluded_known += built.excluded;
+    for l in &built.labels {
+        rep.class(*l);
+    }
+    rep.class_if(built.labels.is_empty(), "no_mutator_applied");
+    rep.class_if(!case.write.steps.is_empty(), "segmented_writes");
+    Ok((rep, obs.dirty))
+}
+
+const SUB_CLEAN: &str = "clean";
+const SUB_CLEANWIRE: &str = "cleanwire";
+const SUB_SMUGGLE: &str = "smuggle";
+
+fn child(args: &Args, sub: &'static str, total: u64) -> Stats {
+    lab::init_ports(args.shard.map(|s| s.0).unwrap_or(0) + if sub == SUB_CLEANWIRE { 7 } else { 0 });
+    let labcell: RefCell<Option<Lab>> = RefCell::new(None);
+    let flaky = std::cell::Cell::new(0u64);
+    let run_on = |fresh: bool, case: &Case| -> CheckResult {
+        let mut lab = match (fresh, labcell.borrow_mut().take()) {
+            (false, Some(l)) => l,
+            (_, old) => {
+                drop(old);
+                Lab::new()
+            }
+        };
+        let r = scenario(&mut lab, case);
+        match r {
+            Ok((rep, dirty)) => {
+                *labcell.borrow_mut() = if dirty { None } else { Some(lab) };
+                Ok(rep)
+            }
+            Err(f) => {
+                *labcell.borrow_mut() = None;
+                Err(f)
+            }
+        }
+    };
+    let check = |case: &Case| -> CheckResult {
+        let first = run_on(false, case);
+        let Err(f) = first else { return first };
+        for _ in 0..2 {
+            if let Err(f2) = run_on(true, case) {
+                return Err(if f2.signature == f.signature { f2 } else { f });
+            }
+        }
+        flaky.set(flaky.get() + 1);
+        let mut rep = CaseReport::default();
+        rep.class("flaky_unconfirmed");
+        Ok(rep)
+    };
+    let mut st = if sub == SUB_CLEANWIRE {
+        engine::run_lab_shard(args, "C03", sub, total, clean_strategy(), check, 60)
+    } else {
+        engine::run_lab_shard(args, "C03", sub, total, smuggle_strategy(), check, 120)
+    };
+    st.flaky_unconfirmed += flaky.get();
+    st
+}
+
+// ------------------------------------------------------------------ `clean`: the readers against clean input (in-process guard)
+
+/// a failure here means "fix the reference reader", not "sozu is wrong"
+pub fn clean_check(case: &Case) -> CheckResult {
+    let mut rep = CaseReport::default();
+    let built = build(&Case { muts: vec![], ..case.clone() });
+    let b = &built.bytes;
+    let strict = http::read_requests(b, &Opts::strict());
+    if strict.tail != Tail::Clean || strict.reqs.len() != case.reqs.len() {
+        fail!("C03/clean:strict-reader-refuses-clean-input", "{} requests generated, strict reading: {}; bytes {:?}", case.reqs.len(), strict.describe(), esc(b, 1200));
+    }
+    for (k, (q, r)) in strict.reqs.iter().zip(&case.reqs).enumerate() {
+        let want_marker = marker(case.nonce, false, k);
+        let want_len = match (&r.body, r.payload) {
+            (Body::None, _) => 0,
+            (Body::Cl(l), 0) | (Body::Chunked(l, _), 0) => *l,
+            _ => payload_bytes(case, k, r, 0).len(),
+        };
+        if q.method != METHODS[r.method as usize % METHODS.len()] || marker_of(q).as_deref() != Some(want_marker.as_str()) || q.body.len() != want_len || host_only(&q.host.clone().unwrap_or_default()) != format!("c{}.lab", r.host % 2) {
+            fail!("C03/clean:strict-reader-misreads-clean-input", "request {k}: generated {r:?}, read {} {} host {:?} body {} marker {:?}", q.method, q.target, q.host, q.body.len(), marker_of(q));
+        }
+    }
+    for v in http::variants().iter().chain(std::iter::once(&Opts::normalising())) {
+        let rv = http::read_requests(b, v);
+        if rv.boundaries() != strict.boundaries() || rv.tail != Tail::Clean {
+            fail!(format!("C03/clean:variant-disagrees-on-clean-input:{}", v.name), "strict: {}; {}: {}; bytes {:?}", strict.describe(), v.name, rv.describe(), esc(b, 1200));
+        }
+    }
+    // second opinion: the lab's own strict message reader
+    let mut conn = lab::h1::H1Conn::new(std::io::Cursor::new(b.clone()));
+    for (k, q) in strict.reqs.iter().enumerate() {
+        match conn.next_message(lab::h1::Kind::Request, Instant::now() + Duration::from_secs(5)) {
+            lab::h1::ReadOutcome::Message(m) if m.body == q.body && m.method() == Some(q.method.as_str()) && m.end == lab::h1::End::Clean => {}
+            other => fail!("C03/clean:readers-disagree-on-clean-input", "request {k}: model reads {} {} body {}, lab reader: {}", q.method, q.target, q.body.len(), lab::h1::describe(&other)),
+        }
+    }
+    rep.nontrivial = case.reqs.len() >= 2;
+    rep.class_if(case.reqs.len() >= 2, "pipelined_2+");
+    rep.class_if(case.reqs.iter().any(|r| matches!(r.body, Body::Chunked(..))), "chunked_body");
+    rep.class_if(case.reqs.iter().any(|r| matches!(r.body, Body::Cl(..))), "content_length_body");
+    rep.class_if(case.reqs.iter().any(|r| r.payload != 0 && r.body != Body::None), "embedded_request_in_body");
+    rep.inner_evaluations = case.reqs.len() as u64;
+    Ok(rep)
+}
+
+/// fixed expectations: the asset corpus is accepted, every known smuggling shape is refused by the strict
+/// reader (or read differently by some variant). Returns complaints.
+fn reader_self_test() -> Vec<String> {
+    let mut bad = vec![];
+    let strict = Opts::strict();
+    if let Ok(txt) = std::fs::read("/repo/lib/assets/http-requests.txt") {
+        let mut crlf = Vec::with_capacity(txt.len() + 1000);
+        for (i, &c) in txt.iter().enumerate() {
+            if c == b'\n' && (i == 0 || txt[i - 1] != b'\r') {
+                crlf.push(b'\r');
+            }
+            crlf.push(c);
+        }
+        let r = http::read_requests(&crlf, &strict);
+        if r.tail != Tail::Clean || r.reqs.len() < 50 {
+            bad.push(format!("http-requests.txt: {} requests, tail {:?}", r.reqs.len(), r.tail));
+        }
+        for v in http::variants() {
+            let rv = http::read_requests(&crlf, &v);
+            if rv.boundaries() != r.boundaries() {
+                bad.push(format!("http-requests.txt: variant {} disagrees", v.name));
+            }
+        }
+    }
+    let h = "POST / HTTP/1.1\r\nHost: a\r\n";
+    let smug = "0\r\n\r\nGET /x HTTP/1.1\r\nHost: a\r\n\r\n";
+    let shapes: Vec<(String, &str)> = vec![
+        (format!("{h}Content-Length: {}\r\nTransfer-Encoding: chunked\r\n\r\n{smug}", smug.len()), "both-cl-and-te"),
+        (format!("{h}Transfer-Encoding: xchunked\r\n\r\n{smug}"), "te-final-not-chunked"),
+        (format!("{h}Transfer-Encoding: chunked, identity\r\n\r\n{smug}"), "te-final-not-chunked"),
+        (format!("{h}Transfer-Encoding: chunked\r\nTransfer-Encoding: identity\r\n\r\n{smug}"), "te-final-not-chunked"),
+        (format!("{h}Content-Length: +5\r\n\r\nabcde"), "content-length-value"),
+        (format!("{h}Content-Length: 5, 5\r\n\r\nabcde"), "dup-content-length"),
+        (format!("{h}Content-Length: 5\r\nContent-Length: 6\r\n\r\nabcdef"), "dup-content-length"),
+        (format!("{h}Content-Length : 5\r\n\r\nabcde"), "ws-before-colon"),
+        (format!("{h}X: a\r\n Content-Length: 5\r\n\r\nabcde"), "obs-fold"),
+        (format!("{h}X: a\nContent-Length: 5\r\n\r\nabcde"), "bare-lf"),
+        (format!("{h}X: a\rContent-Length: 5\r\n\r\nabcde"), "bare-cr"),
+        (format!("{h}X: a\0b\r\n\r\n"), "nul-in-value"),
+        (format!("{h}Transfer-Encoding: chunked\r\n\r\n5;a=\"\r\n\"\r\nabcde\r\n0\r\n\r\n"), "chunk-ext"),
+        (format!("{h}Transfer-Encoding: chunked\r\n\r\n0x5\r\nabcde\r\n0\r\n\r\n"), "chunk-size"),
+        ("POST / HTTP/1.0\r\nTransfer-Encoding: chunked\r\n\r\n0\r\n\r\n".to_string(), "te-in-http10"),
+        (format!("{h}Host: b\r\n\r\n"), "host-count"),
+        ("GET  / HTTP/1.1\r\nHost: a\r\n\r\n".to_string(), "request-line"),
+    ];
+    for (bytes, class) in &shapes {
+        let r = http::read_requests(bytes.as_bytes(), &strict);
+        match &r.tail {
+            Tail::Reject { class: c, .. } if c == class => {}
+            other => bad.push(format!("strict reader on {bytes:?}: expected reject {class}, got {other:?}")),
+        }
+    }
+    // the variants see the smuggled request where the strict reader refuses
+    let clte = format!("{h}Content-Length: {}\r\nTransfer-Encoding: chunked\r\n\r\n{smug}", smug.len());
+    let te = http::read_requests(clte.as_bytes(), &http::variants()[0]);
+    let cl = http::read_requests(clte.as_bytes(), &http::variants()[1]);
+    if te.reqs.len() != 2 || cl.reqs.len() != 1 {
+        bad.push(format!("CL.TE sample: te-wins finds {} requests, cl-wins {}", te.reqs.len(), cl.reqs.len()));
+    }
+    bad
+}
+
+// ------------------------------------------------------------------ run
+
+pub fn run(args: &Args) -> i32 {
+    if args.shard.is_some() {
+        let sub = if args.only.as_deref() == Some(SUB_CLEANWIRE) { SUB_CLEANWIRE } else { SUB_SMUGGLE };
+        let total = if sub == SUB_CLEANWIRE { args.cases(320, 3_000) } else { args.cases(1_600, 20_000) };
+        let st = child(args, sub, total);
+        return engine::shard::child_finish(args, &st);
+    }
+    let mut ev = Evidence::new(args, "exploration");
+    ev.rule(
+        SUB_CLEAN,
+        "guard for the reference readers (a failure means: fix the reader): grammar-generated clean pipelined request sequences (1..3 requests, 8 methods, origin/absolute targets, 0..3 harmless fields, no body / Content-Length / chunked bodies whose content may itself be a complete request) must be read by the strict RFC 9112 reader exactly as generated, by all 14 permissive variants and the TE-wins normalising reader with the same boundaries, and by the lab's independent message reader with the same bodies; /repo/lib/assets/http-requests.txt (LF -> CRLF) must be accepted; 17 fixed smuggling shapes must be refused with the expected reason. Non-trivial: 2+ requests.",
+    );
+    ev.rule(
+        SUB_CLEANWIRE,
+        "wire lab, same clean grammar, generated segmentation of the client's writes: what sozu writes to the recording backends for clean input must pass the whole oracle of `smuggle` (guard: sozu's normal output is accepted by the readers). Non-trivial: 2+ pipelined requests.",
+    );
+    ev.rule(
+        SUB_SMUGGLE,
+        "wire lab: one client connection to a live worker (2 clusters c0.lab / c1.lab, each with a recording backend that stores every byte per connection and answers 200 to each request the STRICT reader can read). Client bytes = clean grammar sequence (1..3 pipelined requests, each with a unique marker field; bodies may embed a complete request) + 1..3 mutators from the catalogue (CL+TE / TE+CL, duplicate / conflicting / malformed Content-Length values, 20 Transfer-Encoding value forms, TE split over two fields, whitespace before colon, obs-fold, bare LF, bare CR, NUL/CTL/0x80+ bytes in names and values, 23 chunk-framing forms, 9 version forms incl. HTTP/1.0 + TE, 16 Host forms, 17 request-line forms, byte flip / delete / duplicate / token insert / truncate) written with generated segmentation. Oracle on O = bytes each backend connection received: (1) the strict RFC 9112 reader accepts O and 14 permissive variant readers find the same boundaries; (2) every request any strict reading finds in O carries exactly one Sozu-Id (sozu wrote it as a request head, i.e. it is a request sozu itself understood), its host is the routed cluster's, it occurs at most as often as the client sent its marker, and method / target / version / host / body equal the client's message as read by the strict reader (unambiguous client messages) or by the TE-wins normalising reader (ambiguous ones); (3) ambiguous or malformed client input either does not reach a backend or reaches it in a form satisfying (1)-(2); (4) no CR / LF / NUL / CTL in forwarded field values (strict reader), every forwarded field is one the client sent or one of sozu's documented additions (Host rewritten from the authority, X-Forwarded-For/-Port/-Proto, Forwarded, X-Request-Id, Sozu-Id, Connection: close, re-serialised Cookie). The client's received bytes must be a readable response sequence, no backend response twice. A failure in a connection where sozu forwarded a Transfer-Encoding value that is not a token list ending in chunked is reported under the one signature of that root cause. A failure is re-run twice on a fresh worker. Non-trivial: the client stream is not accepted byte-for-byte by the strict reader and all variants, or it holds 2+ requests.",
+    );
+    ev.assume("only the HTTP/1.1 frontend -> HTTP/1.1 backend path is exercised: HTTP/2 peers do not exist in the lab yet (the H2 half of the property, HPACK / pseudo-header / CONTINUATION shapes, and H1<->H2 conversions are not checked); the in-process tier and the h1_smuggle fuzz target of the design are not built");
+    ev.assume("`any RFC-conforming backend` is approximated by one strict and 14 permissive reference readers; a backend quirk not modelled by a variant is invisible");
+    ev.assume("the end of a scenario is a quiet period (220 ms without a byte on either side): bytes sozu would forward later are not seen; every verdict is a positive observation on bytes that did arrive, never an absence");
+    ev.assume("default features (tolerant-http1-parser off), default listener options (no X-Real-IP injection), CONNECT and Upgrade / Expect: 100-continue are not generated");
+
+    // ---- clean (in-process)
+    if args.wants(SUB_CLEAN) && args.replay.is_none() {
+        for c in reader_self_test() {
+            ev.inconclusive(SUB_CLEAN, format!("reference reader self-test: {c}"));
+        }
+    }
+    ev.floor(SUB_CLEAN, "pipelined_2+", 0.4);
+    ev.floor(SUB_CLEAN, "embedded_request_in_body", 0.1);
+    engine::run_pbt(&mut ev, args, SUB_CLEAN, args.cases(4_000, 100_000), clean_strategy, clean_check);
+
+    // ---- wire lab
+    ev.floor(SUB_CLEANWIRE, "pipelined_2+", 0.4);
+    ev.floor(SUB_CLEANWIRE, "reached_a_backend", 0.8);
+    ev.floor(SUB_SMUGGLE, "client_stream_not_strictly_readable", 0.4);
+    ev.floor(SUB_SMUGGLE, "reached_a_backend", 0.15);
+    ev.floor(SUB_SMUGGLE, "malformed_or_ambiguous_yet_forwarded", 0.02);
+    let watchdog = Duration::from_secs(args.tier.pick(600, 5400));
+    engine::shard::run_sharded(&mut ev, args, SUB_CLEANWIRE, 16, watchdog);
+    engine::shard::run_sharded(&mut ev, args, SUB_SMUGGLE, 16, watchdog);
+    ev.finish()
 }
